@@ -76,6 +76,8 @@ pub enum Op {
     FeeWithdraw { sender: P },
     Ibc { seq: u64, outcome: u8 },
     StrayCallback { seq: u64, outcome: u8, foreign_channel: bool },
+    /// `reply` entry point with an id nobody is waiting for (success or error result)
+    StrayReply { id: u64, ok: bool },
     Breaker { sender: P },
     Resume { sender: P, consistent: bool },
     /// admin override that re-bases only the staked total (LST and reward totals are passed unchanged)
@@ -248,6 +250,19 @@ pub fn run(b: &mut Built, op: &Op, pfx: &str, env: Envelope) -> StepOut {
         Op::StrayCallback { seq, outcome, foreign_channel } => {
             let ch = if *foreign_channel { addr::OTHER_CHANNEL } else { addr::CHANNEL };
             b.chain.sudo_callback(ch, *seq, *outcome)
+        }
+        Op::StrayReply { id, ok } => {
+            use cosmwasm_std::{Binary, Reply, SubMsgResponse, SubMsgResult};
+            let result = if *ok { SubMsgResult::Ok(SubMsgResponse { events: vec![], data: Some(Binary::from(vec![8u8, 9u8])) }) } else { SubMsgResult::Err("boom".into()) };
+            let env = b.chain.env.clone();
+            let rid = *id;
+            let r = symcore::catch(|| staking::contract::reply(b.chain.deps.as_mut(), env, Reply { id: rid, result }));
+            match r {
+                Err(p) if p.contains("SYMX") => panic!("{p}"),
+                Err(p) => Tx::Panic(p),
+                Ok(Err(e)) => Tx::Err(e.to_string()),
+                Ok(Ok(_)) => Tx::Ok { msgs: vec![], attrs: vec![] },
+            }
         }
         Op::Breaker { sender } => {
             let s = who_addr(&who, sender);
@@ -1031,6 +1046,9 @@ pub fn post_op(cx: &Ctx, b: &Built, op: &Op, s: &StepOut) {
             }
             packets_same(f, "C07:other tracked transfers untouched by the callback", pre, post, &[*seq]);
             prove_same(f, "C01:callback leaves the totals alone", &[(&post.n, &pre.n), (&post.l, &pre.l), (&post.fees, &pre.fees), (&post.rewards, &pre.rewards)]);
+        }
+        Op::StrayReply { .. } => {
+            claim(f, "C07:a reply nobody is waiting for is refused and changes nothing", !s.tx.is_ok() && pre.raw == post.raw);
         }
         Op::StrayCallback { seq, foreign_channel, .. } => {
             if *foreign_channel || !pre.packets.contains_key(seq) {
